@@ -56,12 +56,17 @@ SCENARIOS = {
 }
 
 
+# a write that fails while a break/continue is pending (the buffered body of ifchanged is flushed after the interrupt was set)
+PENDING_INTERRUPT = '{% for i in a %}{% ifchanged %}p{{i}}{% break %}{% endifchanged %}q{% endfor %}{% for i in a %}{% ifchanged %}r{{i}}{% continue %}{% endifchanged %}s{% endfor %}'
+
+
 def scenario_for(name):
     base = name.split('(')[0]
     if base == 'Partials':
-        return {'kind': 'sinkfault', 'template': "a{% include 'p' %}b{% render 'p' %}c", 'partials': {'p': '[partial]'}, 'globals': {'x': 1}}
+        return {'kind': 'sinkfault', 'template': "a{% include 'p' %}b{% render 'p' %}c{% render 'q' for a as item %}d", 'partials': {'p': '[partial]', 'q': '[{{ item }}]'}, 'globals': {'x': 1, 'a': [1, 2, 3]}}
     tpl = SCENARIOS.get(base)
     if tpl is None: return None
+    if base in ('core::Template', 'For', 'TableRow', 'IfChanged', 'Conditional', 'Case', 'Capture'): tpl = tpl + PENDING_INTERRUPT      # these hold child templates
     return {'kind': 'sinkfault', 'template': tpl, 'globals': {'x': 1, 'y': 'why', 'a': [10, 10, 22, 333]}}
 
 
@@ -146,8 +151,86 @@ def ob_buffered_equals_streamed(chk, P):
 ALL = ['Text', 'RawT', 'FilterChain', 'Template', 'Conditional', 'Increment', 'Decrement', 'Capture', 'IfChanged', 'Case', 'Cycle', 'For', 'TableRow']
 
 
+def ob_partials_sink(chk, P):
+    """include / render / render-for over a failing sink: the partial writes through the caller's writer"""
+    from checks.C08 import PartialsEnv, ParentWithPartials
+    for name, form in (('Include', None), ('Render', 'plain'), ('Render', 'for')):
+        label = name if form is None else f'{name}({form})'
+        with chk.obligation(f'{label}/sink-fault', f'{label}: once a write by the partial fails nothing more is written and the error is returned; what the sink accepted is a prefix of the fault-free output',
+                            {'partial': 'abstract: up to 2 writes, may fail, may interrupt', 'sink': 'fails at the K-th write for a solver-chosen K (0 = never); short writes allowed', 'for form': 'array of 2 elements'}) as ob:
+            ex = Executor(P, models_with(registers_models())); ex.seed = chk.seed; ex.max_steps = 60000
+            st = State(); sink = SinkEnv('W')
+            child = ChildEnv('partial', sink, 2, owner='scope')
+            penv = ParentWithPartials(('x',), PartialsEnv({'p'}, child))
+            nm = expr_stub(value_scalar(scalar_str('p')), 'name')
+            if name == 'Include':
+                fn = P.find_method('Include', 'render_to', 'Renderable', 'lib', 'stdlib/tags/include_tag.rs')
+                self_ = st.ref(Adt('Include', None, [nm, VecV([])], ['partial', 'vars']))
+            else:
+                fn = P.find_method('Render', 'render_to', 'Renderable', 'lib')
+                arr = Adt('Value', 'Array', [VecV([value_scalar(scalar_int(1)), value_scalar(scalar_int(2))])])
+                for_ = Some(Tup([Adt('RangeExpression', 'Array', [expr_stub(arr, 'range')]), StrV('item', 'KString')])) if form == 'for' else NONE
+                self_ = st.ref(Adt('Render', None, [nm, for_, VecV([])], ['partial', 'for_', 'vars']))
+            results = []
+            for s2, kind, val in ex.run(fn, [self_, st.ref(sink.abs(), True), st.ref(penv.abs())], st):
+                ob.paths += 1; ob.reached(); results.append((s2, kind, val))
+            analyse(ob, ex, 'Partials', results, sink)
+            ob.absorb(ex)
+
+
+def ob_value_printers(chk, P):
+    """Display of arrays and objects ({{ array }}, {{ object }}): an element whose write fails ends the printing"""
+    for ty in ('ArrayRender', 'ArraySource', 'ObjectRender', 'ObjectSource'):
+        with chk.obligation(f'{ty}::fmt/sink-fault', f'<{ty} as Display>::fmt stops at the first failing write and returns the error (nothing is written after a failure)',
+                            {'elements': '3 abstract elements / entries', 'formatter': 'fails at the K-th write for a solver-chosen K (0 = never)'}) as ob:
+            ex = Executor(P, models_with([])); ex.seed = chk.seed; ex.max_steps = 60000
+            # the hand-written Display impl (derived Debug impls do not start in column 1)
+            fn = P.find(r'^fn (?:\w+::)*<impl at crates/core/src/model/(?:array|object)/mod.rs:\d+:1: \d+:\d+>::fmt\(_1: &' + ty, 'core')
+            K = z3.Int(f'{ty}_fail_at')
+            def fm_handler(ctx, me, args, st):
+                m = method_of(ctx.callee)
+                if m not in ('write_fmt', 'write_str', 'write_char'): return None
+                n = st.env.get('fw_calls', 0) + 1
+                st.env['fw_calls'] = n
+                if st.env.get('fw_failed'):
+                    st.env['fw_after'] = st.env.get('fw_after', 0) + 1
+                    return ret(st, Err(Adt('FmtError', None, [])))
+                def g():
+                    for s2, fails in ctx.ex.fork_bool(st, K == n):
+                        if fails:
+                            s2.env['fw_failed'] = True
+                            yield s2, 'ret', Err(Adt('FmtError', None, []))
+                        else: yield s2, 'ret', Ok(UNIT)
+                return g()
+            def elem_handler(ctx, me, args, st):
+                m = method_of(ctx.callee)
+                if m in ('render', 'source'): return ret(st, Adt('DisplayCow', 'Borrowed', [st.ref(StrV('e', 'str'))]))
+                return None
+            st = State(); st.assume(z3.And(K >= 0, K <= 12))
+            elems = [Abs(f'elem{i}', elem_handler) for i in range(3)]
+            if ty.startswith('Array'):
+                inner = st.ref(VecV([e for e in elems], 'Vec'))
+            else:
+                from mirsym.models.maps import MapV
+                inner = st.ref(MapV(('a', 'b', 'c'), tuple(value_scalar(scalar_int(7 + i)) for i in range(3)), 'Object'))      # Object values are real Values
+            self_ = st.ref(Adt(ty, None, [inner], ['s']))
+            for s2, kind, val in ex.run(fn, [self_, st.ref(Abs('formatter', fm_handler), True)], st):
+                ob.paths += 1; ob.reached()
+                bad = None
+                if kind != 'ret': bad = f'{kind} {val}'
+                elif s2.env.get('fw_after'): bad = f"{s2.env['fw_after']} further write(s) after the failure"
+                elif s2.env.get('fw_failed') and val.variant != 'Err': bad = 'returns Ok although a write failed'
+                ob.decide(ex, s2.conds, z3.BoolVal(bool(bad)))
+                if bad:
+                    g = {'a': [10, 10, 22, 333], 'o': {'k': 1}}
+                    ob.violation(f'{ty}/write-after-failure', f'<{ty} as Display>::fmt: {bad}', {}, {'kind': 'sinkfault', 'template': '{{ a }}|{{ o }}', 'globals': g}, confirm_sink)
+            ob.absorb(ex)
+
+
 def run(chk):
     P = chk.program(('core', 'lib', 'liquid'))
     for w in ALL:
         ob_renderable(chk, P, w)
+    ob_partials_sink(chk, P)
+    ob_value_printers(chk, P)
     ob_buffered_equals_streamed(chk, P)
